@@ -57,6 +57,32 @@ var propertyClauses = map[string]clauseInfo{
 			"that processEmphasis keeps its search bounds valid under deletions, selects closers/openers as the procedure prescribes, and that wrap/remove build the corresponding tree",
 		},
 	},
+	"C07": {
+		decided: []string{
+			"escapeHTML: the appended region contains none of < > \" ' and every & in it starts one of the five entities it emits (all inputs, unbounded)",
+			"in preBlock/postBlock/preInline/postInline the output field is only ever extended (site:store), and every piece appended is a literal of the renderer's fixed vocabulary, escaped text (escapeHTML / html.EscapeString), the digits of a list start number, the text of a character reference or soft break (shape from the node invariant), or raw HTML guarded by !IgnoreRaw (site:append vocabulary obligations)",
+			"openTagAttr/openTag/closeTag emit <name, <name>, </name> (or the &lt; variants under a predicate) with name the atom's name, and nothing else",
+			"appendAltText appends exactly one attribute  alt=\"...\" whose value is escaped, for every tree",
+			"NormalizeURI's output alphabet (RFC 3986 characters and %HH escapes); isHex = [0-9A-Fa-f]",
+		},
+		notDecided: []string{
+			"the node invariant the renderer relies on (valid spans, character-reference and soft-break shapes, non-nil children: assumption A-NODEINV) is assumed here; it is the subject of C02/C05/C13",
+			"proper nesting of the emitted tags follows from the pre/post pairing per node kind and the Walk discipline (C18); the pairing table itself is not generated as an obligation",
+			"html.EscapeString, strconv.AppendInt and x/net/html/atom are assumed dependencies",
+		},
+	},
+	"C17": {
+		decided: []string{
+			"filterRaw (clause 1): the bytes appended are the input with some '<' replaced by \"&lt;\" — every append copies the next unaccounted run of the input or emits \"&lt;\" for one '<', and the whole input is accounted for at the end (ghost coverage counter, lemma L-tiling)",
+			"filterRaw (O1): a '<' is escaped exactly when the predicate was asked about the maximal, lower-cased tag name that follows it and rejected it; every '<' met in copy state that does not open a comment, CDATA section or declaration is put to the predicate",
+			"openTagAttr/openTag: the renderer's own start tags are put to the predicate with the atom's name and escaped exactly when it rejects; closeTag emits the tag with or without its '<' escaped",
+			"htmlTagNameEnd, maybeLower, toLowerASCII: exact contracts; FilterTagGFM rejects exactly the nine raw-text element names",
+		},
+		notDecided: []string{
+			"O2-O5 of DESIGN 7.17 (the filter's skip regions for comments, CDATA, declarations end no later than the HTML tokenizer's) and the tokenizer lemma L-C17 are not generated; '<!-->', '<![CDATA[ > ...' and '<3 <script>' are therefore not decided by this check",
+			"the literal <br> of hard line breaks is not routed through the predicate (O6)",
+		},
+	},
 	"C18": {
 		decided: []string{
 			"every call through a child-count / child function value uses opts.ChildCount / opts.Child when non-nil and the defaults otherwise",
